@@ -431,7 +431,12 @@ class Machine(object):
         if op == 'ptrtoint':
             if isinstance(v, Ptr):
                 if type(v.off) is not int:
-                    raise Unsupported("ptrtoint of a symbolic-offset pointer")
+                    # address = (fake) base + symbolic offset: good enough for alignment tests such as p % 8
+                    off = v.off
+                    w = off.size()
+                    off = z3.Extract(t2.bits - 1, 0, off) if w > t2.bits else (z3.SignExt(t2.bits - w, off) if w < t2.bits else off)
+                    r = z3.simplify(z3.BitVecVal(v.obj.base & mask(t2.bits), t2.bits) + off)
+                    return r.as_long() if z3.is_bv_value(r) else note(r, v.off)
                 return (v.obj.base + v.off) & mask(t2.bits)
             if v == 0:
                 return 0
